@@ -61,6 +61,7 @@ structure St (n : Nat) where
   parent : Fin n → Option (Fin n)
   alive : Fin n → Bool
   depth : Fin n → Nat                 -- ghost: strictly increasing from parent to child
+  gen : Fin n → Nat                   -- ghost: number of STOPs this communicator has processed (root: stop rounds started)
   -- per communicator (queue guarded by its mutex, flag by the notifier's mutex,
   -- counters owned by the communicator's thread)
   q : Fin n → List (Cmd n)
@@ -147,7 +148,8 @@ def handleW (s : St n) (v : Fin n) : Cmd n → St n
                hasResult := upd s.hasResult v false, out := upd s.out v (bcast s v (.start e j)) }
   | .stop =>
       { s with selfWait := upd s.selfWait v true, childWait := upd s.childWait v (nChildren s v),
-               jobId := upd s.jobId v none, out := upd s.out v (Out.notify v :: bcast s v .stop) }
+               jobId := upd s.jobId v none, out := upd s.out v (Out.notify v :: bcast s v .stop),
+               gen := upd s.gen v (s.gen v + 1) }
   | .quit =>
       if nChildren s v = 0 then
         { s with quitWait := upd s.quitWait v 0, out := upd s.out v (toParent s v (.quitAck v)) }
@@ -311,6 +313,12 @@ def stepSearchLeave (s : St n) (v : Fin n) (max : Bool) : Option (St n) :=
     | _ => none
   else none
 
+/-- the engine thread is in its main loop, outside `doSearch` and not quitting (threads are created and destroyed by
+    the protocol thread only then: `EngineMainThread::startSearch` after `waitStop()`) -/
+def mainLoopPc : Pc → Bool
+  | .ewait | .eQ0 | .eQ1 | .eOpts1 | .eS0 | .eS1 => true
+  | _ => false
+
 /-- number of pending enqueues to `c` in `l` -/
 def pendingTo (l : List (Out n)) (c : Fin n) : Nat :=
   (l.filter (fun o => match o with | .enq t _ => t == c | .notify _ => false)).length
@@ -324,10 +332,11 @@ def mentions (v : Fin n) : Cmd n → Bool
 /-- a new helper thread: `comm = make_unique<ThreadCommunicator>(parentComm, …)` (parent's queue mutex) -/
 def stepSpawn (r : Fin n) (s : St n) (v p : Fin n) : Option (St n) :=
   if s.alive v = false ∧ s.alive p = true ∧ v ≠ r ∧ v ≠ p ∧ s.q v = [] ∧ s.out v = [] ∧
+     mainLoopPc (s.pc r) = true ∧ s.q p = [] ∧ s.out p = [] ∧
      pendingTo (s.out p) v = 0 ∧ (s.q p).all (fun c => !mentions v c) = true ∧
      (List.finRange n).all (fun c => !(s.parent c == some v && s.alive c)) = true then
     some { s with alive := upd s.alive v true, parent := upd s.parent v (some p),
-                  depth := upd s.depth v (s.depth p + 1), pc := upd s.pc v .wait,
+                  depth := upd s.depth v (s.depth p + 1), gen := upd s.gen v (s.gen p), pc := upd s.pc v .wait,
                   flag := upd s.flag v false, selfWait := upd s.selfWait v false,
                   childWait := upd s.childWait v 0, quitWait := upd s.quitWait v (-1),
                   jobId := upd s.jobId v none, hasResult := upd s.hasResult v false }
@@ -341,7 +350,7 @@ def parentClean (s : St n) (v : Fin n) : Bool :=
 
 /-- `~WorkerThread`: children destroyed first, then `terminate = true; notify; join` -/
 def stepExit (r : Fin n) (s : St n) (v : Fin n) : Option (St n) :=
-  if s.alive v = true ∧ v ≠ r ∧ s.pc v = .poll ∧ s.out v = [] ∧ s.q v = [] ∧
+  if s.alive v = true ∧ v ≠ r ∧ s.pc v = .poll ∧ s.out v = [] ∧ s.q v = [] ∧ mainLoopPc (s.pc r) = true ∧
      s.selfWait v = false ∧ s.childWait v = 0 ∧ s.jobId v = none ∧ nChildren s v = 0 ∧
      parentClean s v = true then
     some { s with alive := upd s.alive v false }
@@ -411,7 +420,8 @@ def stepE (r : Fin n) (s : St n) : Ev n → Option (St n)
       -- comm->sendStopSearch()
       if s.out r = [] ∧ s.pc r = .estop then
         some (setPc { s with selfWait := upd s.selfWait r true, childWait := upd s.childWait r (nChildren s r),
-                             out := upd s.out r (Out.notify r :: bcast s r .stop) } r .eack) else none
+                             out := upd s.out r (Out.notify r :: bcast s r .stop),
+                             gen := upd s.gen r (s.gen r + 1) } r .eack) else none
   | .eSearchEnd =>
       -- `search = false` (E.mutex) ; searchStopped.notify_all()
       if s.out r = [] ∧ s.pc r = .eend ∧ s.search.nxt = none ∧ s.quitF.nxt = none then
@@ -491,6 +501,7 @@ def init (r : Fin n) : St n where
   parent := fun _ => none
   alive := fun v => decide (v = r)
   depth := fun _ => 0
+  gen := fun _ => 0
   q := fun _ => []
   flag := fun _ => false
   selfWait := fun _ => false
